@@ -183,6 +183,12 @@ impl Metainfo {
             },
         };
 
+        // Total length must be representable, other way positions in files can't be calculated
+        files
+            .iter()
+            .try_fold(0u64, |sum, file| sum.checked_add(file.length))
+            .ok_or(Error::MetaInvalidU64("length"))?;
+
         let metainfo = Metainfo {
             announce: Self::find_announce(dict)?,
             name,
@@ -222,9 +228,10 @@ impl Metainfo {
     pub fn find_piece_length(dict: &HashMap<Vec<u8>, BValue>) -> Result<u64, Error> {
         match dict.get(&b"info".to_vec()) {
             Some(BValue::Dict(info)) => match info.get(&b"piece length".to_vec()) {
-                Some(BValue::Int(length)) => {
-                    u64::try_from(*length).or(Err(Error::MetaInvalidU64("piece length")))
-                }
+                Some(BValue::Int(length)) => match u64::try_from(*length) {
+                    Ok(length) if length > 0 => Ok(length),
+                    _ => Err(Error::MetaInvalidU64("piece length")),
+                },
                 _ => Err(Error::MetaIncorrectOrMissing("piece length")),
             },
             _ => Err(Error::MetaIncorrectOrMissing("info".into())),
